@@ -687,6 +687,12 @@ bool TimeZoneInfo::Load(ZoneInfoSource* zip) {
   for (std::size_t i = 0; i != hdr.timecnt; ++i) {
     transitions_[i].unix_time = (time_len == 4) ? Decode32(bp) : Decode64(bp);
     bp += time_len;
+    // zic never generates transitions outside of [-2^59, 2^59], and the
+    // arithmetic below (and in BreakTime()/MakeTime()) depends on every
+    // transition being within reach of its neighbors and of the sentinels.
+    if (transitions_[i].unix_time < -(1LL << 59) ||
+        transitions_[i].unix_time > (1LL << 59))
+      return false;  // out of range
     if (i != 0) {
       // Check that the transitions are ordered by time (as zic guarantees).
       if (!Transition::ByUnixTime()(transitions_[i - 1], transitions_[i]))
@@ -999,6 +1005,11 @@ time_zone::civil_lookup TimeZoneInfo::MakeTime(const civil_second& cs) const {
       // future_spec_, shift back to a supported year using the 400-year
       // cycle of calendaric equivalence and then compensate accordingly.
       if (extended_ && cs.year() > last_year_) {
+        // Years after the one of time_point::max() cannot be represented in
+        // any offset (this also keeps the shift arithmetic from overflowing).
+        const TransitionType& last_tt(transition_types_[tr->type_index]);
+        if (cs.year() > last_tt.civil_max.year())
+          return MakeUnique(time_point<seconds>::max());
         const year_t shift = (cs.year() - last_year_ - 1) / 400 + 1;
         return TimeLocal(YearShift(cs, shift * -400), shift);
       }
